@@ -288,6 +288,8 @@ def run(ctx):
                 # later legs carried and whatever object bind() hands back
                 if out.startswith("ok") and replies and replies[0] is not None:
                     first = _pdu.PDU.unpack(replies[0])
+                    if not hasattr(first, "results"):
+                        continue        # (bind() returned although the first reply was no bind_ack: reported by the rejection oracle above)
                     acc0 = desired < len(first.results) and int(first.results[desired].result) == 0
                     if r_ == "ok accepted" and not acc0:
                         ctx.violation("a request would be issued on a presentation context the server's bind_ack did not accept",
